@@ -233,7 +233,7 @@ def _run2(seed, tape, opts, w):
                               "existing_dir", "nested_new"), "outmode")
     accept = tape.choose(2, "accept") == 0
     answer = tape.pick(("y", "", "Y", "n", "yes", "no"), "answer")
-    pre = tape.pick(("absent", "absent", "file", "dir"), "pre")
+    pre = tape.pick(("absent", "absent", "file", "dir", "link"), "pre")
     output_file = {"unset": None, "new": "out.bin",
                    "existing_file": "existing.txt",
                    "existing_dir": "existingdir",
@@ -253,6 +253,11 @@ def _run2(seed, tape, opts, w):
     if pre != "absent" and under_cwd and not os.path.lexists(dest):
         if pre == "file":
             put(os.path.relpath(dest, base), b"pre-existing at dest")
+        elif pre == "link":
+            # the destination is a symbolic link to a file kept elsewhere
+            put("recv/archive/kept.txt", b"the link's target")
+            os.makedirs(os.path.dirname(dest), exist_ok=True)
+            os.symlink(os.path.join(cwd, "archive", "kept.txt"), dest)
         else:
             os.makedirs(dest)
             put(os.path.relpath(os.path.join(dest, "keep.txt"), base), b"keep")
